@@ -37,10 +37,24 @@ def known_finding_status():
         if e["kind"] != "known" or not isinstance(e.get("witness"), dict):
             continue
         case = {"store": e["witness"]["store"], "ops": e["witness"]["ops"]}
-        a = [x["err"] for x in mc.run_impl_cases([case], build="compiled")[0]]
-        b = [x["err"] for x in mc.run_impl_cases([case], build="pure")[0]]
-        out.append((e, a, b))
+        ca, cb = mc.run_impl_cases([case], build="compiled")[0], mc.run_impl_cases([case], build="pure")[0]
+        if e["signature"].startswith("cython-signed-zero"):
+            out.append((e, [x["store"] for x in ca], [x["store"] for x in cb]))
+        else:
+            out.append((e, [x["err"] for x in ca], [x["err"] for x in cb]))
     return out
+
+
+import re
+_ZERO = [(re.compile(r"-0\.0(?![0-9])"), "0.0"), (re.compile(r"-0\.(?![0-9])"), "0."), (re.compile(r"-0j"), "0j"), (re.compile(r"-0x0\.0p\+0"), "0x0.0p+0")]
+
+
+def zero_norm(x):
+    """the text of a transcript with the sign of every zero dropped"""
+    s = json.dumps(x, sort_keys=True)
+    for rx, to in _ZERO:
+        s = rx.sub(to, s)
+    return s
 
 
 def run(ctx):
@@ -55,6 +69,7 @@ def run(ctx):
     cases = [mc.gen_history(ctx.rng, ["assign", "mixed", "dag", "frozen", "assign_flat"][i % 5], nofun=True) for i in range(ctx.pick(200, 3000))]
     # key TYPES (numpy integers, IntEnum members, tuples, floats, None, bool, big / negative ints) and keys needing escapes
     cases += [mc.gen_history(ctx.rng, "assign", nofun=True, keys=["exotic", "exotic", "strings"][i % 3]) for i in range(ctx.pick(60, 900))]
+    cases += [mc.gen_history(ctx.rng, ["assign", "mixed"][i % 2], nofun=True, values="mixed") for i in range(ctx.pick(40, 600))]
     cases += C13.gen_cases(ctx, ctx.pick(40, 600)) + [mc.chain_case(ctx.pick(300, 2000))]
     configs = [("compiled", s) for s in range(ctx.pick(3, 12))] + [("pure", s) for s in range(ctx.pick(2, 6))]
     runs = {}
@@ -66,11 +81,26 @@ def run(ctx):
     mism_pure = mc.model_compare(ctx, cases[:ctx.pick(60, 600)], pure0[:ctx.pick(60, 600)], "c20p")
     mism = mism + mism_pure
     fails = []
+    zero_only = []       # programs whose transcripts differ in the sign of a zero and in nothing else (known finding cython-signed-zero)
     cyc = [any(has_cycle(runs[c][i]) for c in configs) for i in range(len(cases))]
+    def tr(ol, i):
+        """mixed value types: an update may raise half-way (None + 1, shape mismatch) and the order among independent tasks,
+        hence the partial state, legitimately follows the hash seed (C18's domain): such programs are compared up to the
+        first operation that raised in any configuration, that operation by its exception class only"""
+        if mc.is_int_case(cases[i]):
+            return transcript(ol, full=not cyc[i])
+        cut = min(next((j for j, o in enumerate(runs[cf][i]) if o["err"] is not None), len(ol)) for cf in configs)
+        taint = min((t for t in (mc.tainted_prefix(runs[cf][i]) for cf in configs) if t is not None), default=len(ol))
+        if taint <= cut:       # ordering cycle (known finding C01): with mixed types even the exception class may follow the order
+            return transcript(ol[:taint], full=True)
+        return transcript(ol[:cut], full=True) + transcript(ol[cut:cut + 1], full=False)
     for i, c in enumerate(cases):
-        t0 = transcript(ref[i], full=not cyc[i])
+        t0 = tr(ref[i], i)
         for cfg in configs[1:]:
-            t1 = transcript(runs[cfg][i], full=not cyc[i])
+            t1 = tr(runs[cfg][i], i)
+            if t0 != t1 and cfg[0] != configs[0][0] and zero_norm(t0) == zero_norm(t1):
+                zero_only.append((i, cfg))
+                continue
             if t0 != t1:
                 k = next(j for j, (x, y) in enumerate(zip(t0, t1)) if x != y)
                 what = ["exception class", "container contents", "definitions", "dump() text", "frozen flag"]
@@ -84,15 +114,40 @@ def run(ctx):
     tcases = [C04.gen_tree_case(ctx.rng) for _ in range(ctx.pick(300, 6000))]
     parts = list(vlib.chunks(tcases, 100))
     both = rs.run_both([{"mode": "c04", "classes": classes, "fns": fns, "cases": pp} for pp in parts])
-    norm = lambda r: json.dumps(r, sort_keys=True).replace("-0x0.0p+0", "0x0.0p+0")
     term_fail = []
     k = 0
     for pi, pp in enumerate(parts):
         rc, rp = both["compiled"][pi]["results"], both["pure"][pi]["results"]
         for j in range(len(pp)):
-            if norm(rc[j]) != norm(rp[j]):
-                term_fail.append((k, rc[j], rp[j]))
+            if json.dumps(rc[j], sort_keys=True) != json.dumps(rp[j], sort_keys=True):
+                if zero_norm(rc[j]) == zero_norm(rp[j]):
+                    zero_only.append((("term", k, rc[j], rp[j]), ("pure", 0)))
+                else:
+                    term_fail.append((k, rc[j], rp[j]))
             k += 1
+    zero_known = False
+    for e, a, b in known_finding_status():
+        if e["signature"].startswith("cython-signed-zero"):
+            zero_known = (a != b)
+            if a != b:
+                vlib.known(ctx, f"compiled and pure builds differ in the sign of a zero (a float zero times an integer keeps its sign in the code generated by "
+                                f"Cython): witness c['w'] = 0.0; c['w'] *= -1 leaves {a[-1][0][1]} (compiled) vs {b[-1][0][1]} (pure); "
+                                f"{len(zero_only)} generated programs/terms differ in the sign of a zero only")
+            else:
+                ctx.notes.append("known finding C20/cython-signed-zero: compiled and pure now agree on the witness")
+        elif a != b:
+            vlib.known(ctx, f"build-dependent behaviour when assigning an attribute named like a member of the reference class (setattr(ref, '_key', v)): "
+                            f"compiled {a} vs pure {b}")
+        else:
+            ctx.notes.append("known finding C20/ref-member-attribute: compiled and pure now agree on the witness")
+    if zero_only and not zero_known:
+        # the listed witness no longer reproduces: sign-of-zero differences are violations like any other
+        i, cfg = zero_only[0]
+        if isinstance(i, tuple):
+            term_fail.append(i[1:])
+        else:
+            fails.append((i, len(cases[i]["ops"]) - 1, f"container contents differ in the sign of a zero between {configs[0]} and {cfg}"))
+    ctx.cov["sign_of_zero_only_differences"] = len(zero_only)
     term_evals = 2 * len(tcases)
     ctx.obligations.append(("identical structure / values / exception classes of expression terms on the compiled and pure builds",
                             not term_fail, f"{len(term_fail)} differing terms of {len(tcases)}"))
@@ -100,12 +155,6 @@ def run(ctx):
         i, a, b = term_fail[0]
         vlib.violation(ctx, {"kind": "oracle", "what": "an expression term behaves differently on the compiled and on the pure build",
                              "term_case": tcases[i], "compiled": a, "pure": b, "how_to_replay": "./check C20 --replay <this file>"})
-    for e, a, b in known_finding_status():
-        if a != b:
-            vlib.known(ctx, f"build-dependent behaviour when assigning an attribute named like a member of the reference class (setattr(ref, '_key', v)): "
-                            f"compiled {a} vs pure {b}")
-        else:
-            ctx.notes.append("known finding C20/ref-member-attribute: compiled and pure now agree on the witness")
     for c, ol in zip(cases, ref):
         defs = sum(1 for op in c["ops"] if op[0] == "set" and op[2][0] == "expr")
         if defs >= 2 and any(o["trace"] for o in ol):
@@ -126,7 +175,7 @@ def replay(ctx, data):
         classes, fns, _ = rs.ids()
         both = rs.run_both([{"mode": "c04", "classes": classes, "fns": fns, "cases": [data["term_case"]]}])
         a, b = both["compiled"][0]["results"][0], both["pure"][0]["results"][0]
-        n = lambda r: json.dumps(r, sort_keys=True).replace("-0x0.0p+0", "0x0.0p+0")
+        n = zero_norm
         print(json.dumps({"compiled": a, "pure": b})[:1500])
         if n(a) != n(b):
             print("VIOLATION property=C20 replay=(given): compiled and pure builds differ on this term"); return 1
@@ -137,7 +186,7 @@ def replay(ctx, data):
     outs = {}
     for cfg in [("compiled", 0), ("compiled", 1), ("compiled", 2), ("pure", 0), ("pure", 1)]:
         o = mc.run_impl_cases([case], build=cfg[0], hashseed=cfg[1])[0]
-        outs[cfg] = transcript(o, full=not has_cycle(o))
+        outs[cfg] = zero_norm(transcript(o, full=not has_cycle(o)))      # sign of zero: known finding cython-signed-zero
     ref = outs[("compiled", 0)]
     bad = [cfg for cfg, t in outs.items() if t != ref]
     if bad:
